@@ -219,7 +219,7 @@ MANIFEST_TEXT['C19'] = {
 }
 MANIFEST_TEXT['C04'] = {
     'technique': 'deterministic simulation over configurations with a monitored storage seam: guard pages, poisoned canaries, accessor interval checks and ASan while seeded extreme-geometry requests run on seed-chosen chains',
-    'level_text': "memory-safety invariant monitored on every sampled request under 6 of the 32 chains per run (all chains over a batch); inputs sampled with bias to the listed edge geometry",
+    'level_text': "memory-safety invariant monitored on every sampled request under 6 of the 32 chains per run (all chains over a batch), by a gcc and by a clang sanitizer build; inputs sampled with bias to the listed edge geometry, with constructed exact-fit, projective-cover and 4-GiB-allocation cases",
     'level_note': "reads by non-instrumented inline assembly are only caught by the guard page side",
     'design_ref': 'DESIGN.md section 4, C04',
 }
